@@ -94,6 +94,19 @@ const HAND_WRITTEN: &[&str] = &[
     "Jun 15-Aug 31: Mo-Su 09:00-21:00",
     "Mo-Fr 07:30-19:00; Sa 08:00-13:00; Su off",
     "Tu-Sa 12:00-14:00, 19:30-22:30; Su 12:00-14:00",
+    // rules bound to a span of years, next to a rule that keeps changing every day (alone, such an expression
+    // stops changing after its last year and is excluded by the work budget at the later instants)
+    "Mo-Fr 09:00-17:00; 2020-2024 Sa 10:00-14:00",
+    "Mo-Su 08:00-20:00; 2021-2023 Su off",
+    "2022-2026 Mo-Su 10:00-12:00; Mo-Fr 14:00-18:00",
+    "Mo-Sa 10:00-19:00; 2024 Dec 24 10:00-14:00; 2025 Jan 02 off",
+    "Mo-Fr 08:00-18:00; 1999-2030/3 We off",
+    "2025+ Mo-Fr 07:00-15:00; Sa,Su 10:00-12:00",
+    // bounds inside the hour (half hour) most zones skip in spring
+    "02:15-02:45",
+    "00:00-02:30",
+    "Sa 22:00-26:10, Su 02:50-06:00",
+    "02:00-03:00 off; 00:00-24:00",
     // the same rule twice (a normalizer that deduplicates must keep the order of the survivors)
     "Mo-Fr 10:00-18:00 ; PH off ; Sa 10:00-12:00 ; PH off",
     "Mo-Sa 09:00-19:00; Su off; Sa 09:00-13:00; Su off",
